@@ -27,11 +27,12 @@ KERNELS_CODEC = [H("K2_uvarint_rt"), H("K2_uvarint_agree"), H("K3_freqHasLocs"),
 # quick bounds are chosen so that every run completes (exhaustive inside its bound) in about two minutes
 # on 16 cores; thorough bounds are the largest that were run.
 prop("C01", KERNELS_CODEC + [
+    H("H01_coder", quick={"wall": "140s", "shards": 8}, thorough={"wall": "1500s", "shards": 16, "param": "maxDocs=3"}),
     H("H01_shape", quick={"wall": "140s", "shards": 12, "param": "lite=1"}, thorough={"wall": "1500s", "shards": 16}),
     H("H01_width", quick={"wall": "140s", "shards": 4, "param": "widthDocs=1"}, thorough={"wall": "1500s", "shards": 16, "param": "widthDocs=2"}),
 ])
-prop("C02", [H("H02_stored", quick={"wall": "140s", "shards": 16, "param": "wide=0,maxAP=1,maxDocs=1"}, thorough={"wall": "1500s", "shards": 16, "param": "wide=1,maxAP=2,maxDocs=2"})])
-prop("C03", [H("H03_dv", quick={"wall": "140s", "shards": 16, "param": "maxDocs=2,maxSeq=4,lite=1"}, thorough={"wall": "1500s", "shards": 16, "param": "maxDocs=3,maxSeq=4"})])
+prop("C02", [H("K8_storedmeta", quick={"wall": "140s", "shards": 8}), H("H02_stored", quick={"wall": "140s", "shards": 16, "param": "wide=0,maxAP=1,maxDocs=1"}, thorough={"wall": "1500s", "shards": 16, "param": "wide=1,maxAP=2,maxDocs=2"})])
+prop("C03", [H("K6_boundaries"), H("H03_coder"), H("H03_dv", quick={"wall": "140s", "shards": 16, "param": "maxDocs=2,maxSeq=4,lite=1"}, thorough={"wall": "1500s", "shards": 16, "param": "maxDocs=3,maxSeq=4"})])
 prop("C04", [H("K7_footer"), H("H04_persist", quick={"wall": "140s", "shards": 16, "param": "lite=1,maxDocs=1"}, thorough={"wall": "1500s", "shards": 16, "param": "maxDocs=2"})])
 prop("C05", [H("H05_merge", common={"param": "maxDocs=1,tieReopen=1,maxOcc=1"}, quick={"wall": "140s", "shards": 12}, thorough={"wall": "1500s", "shards": 16, "param": "maxDocs=2,tieReopen=0,maxOcc=1"}),
              # multi-valued stored fields (up to 3 occurrences with array positions), every field present and stored
@@ -45,8 +46,8 @@ prop("C07", [
     # longer lists, every exclusion set, every document a hit
     H("H07_seq", quick={"wall": "140s", "shards": 4, "param": "fixN=3,maxL=2,maxLocs=0,variants=1,allHits=1,allFlags=1"}, thorough={"wall": "1500s", "shards": 16, "param": "fixN=5,maxL=3,maxLocs=0,variants=1,allHits=1,allFlags=1"}),
 ])
-prop("C08", [H("H08_dict", quick={"wall": "175s", "shards": 16, "param": "provs=5,lite=1"}, thorough={"wall": "1500s", "shards": 16, "param": "provs=5"})])
-prop("C12", [H("H12_syn", common={"param": "maxSyn=2"}, quick={"wall": "140s", "shards": 16})])
+prop("C08", [H("H08_tmp"), H("H08_dict", quick={"wall": "175s", "shards": 16, "param": "provs=5,lite=1"}, thorough={"wall": "1500s", "shards": 16, "param": "provs=5"})])
+prop("C12", [H("K5_synonym"), H("H12_syn", common={"param": "maxSyn=2"}, quick={"wall": "140s", "shards": 16})])
 prop("C13", [H("H13_synmerge", quick={"wall": "140s", "shards": 16, "param": "maxSyn=1,emptyTerm=1,drop1=0,reopen=0"}, thorough={"wall": "1500s", "shards": 16, "param": "maxSyn=2,emptyTerm=1,twoGen=1"})])
 prop("C11", [H("H11_pool", quick={"wall": "100s", "shards": 8}), H("H11_effects", quick={"wall": "100s", "shards": 8})])
 prop("C17", [H("H17_writeTo"), H("H17_persist"),
@@ -55,7 +56,7 @@ prop("C17", [H("H17_writeTo"), H("H17_persist"),
 prop("C18", [H("H18_cancel", quick={"wall": "100s"})])
 prop("C20", [H("H20_refs", common={"param": "maxOps=6"}, quick={"wall": "150s", "shards": 8}, thorough={"wall": "900s", "shards": 16, "param": "maxOps=8"}), H("H20_openfail")])
 prop("C10", [H("H10_seq", quick={"wall": "140s", "shards": 16, "param": "aMax=1,bMax=1"}, thorough={"wall": "1500s", "shards": 16, "param": "aMax=2,bMax=2"})])
-prop("C09", [H("K1_chunksize"), H("K1_chunktable"), H("K7_footer"),
+prop("C09", [H("K1_chunksize"), H("K1_chunktable"), H("K7_footer"), H("K6_boundaries"),
              H("H09_layout", quick={"wall": "140s", "shards": 8, "param": "maxDocs=1,lite=1"}, thorough={"wall": "1500s", "shards": 16, "param": "maxDocs=2"}),
              H("H09_layout_merged", quick={"wall": "140s", "shards": 8, "param": "lite=1"}, thorough={"wall": "1500s", "shards": 16})])
 VEC = {"vectors": True}
